@@ -69,6 +69,14 @@ func hookDial(ctx context.Context, network, addr string) (net.Conn, error) {
 	if pi.kind == 'a' || r.c.Loop == "plain" {
 		a = &attempt{idx: len(r.attempts), start: now, wsStart: time.Time{}}
 		r.attempts = append(r.attempts, a)
+		if r.busyStop != nil { // a new attempt: the connection with the busy sender is over
+			close(r.busyStop)
+			r.busyStop = nil
+		}
+		select {
+		case r.resume <- struct{}{}: // the user of the client consumes r.In again
+		default:
+		}
 	} else if len(r.attempts) > 0 {
 		a = r.attempts[len(r.attempts)-1]
 	} else { // a websocket dial of ReconnectAuth with no access request before it: record it on its own
@@ -156,6 +164,10 @@ type run struct {
 	finished   chan struct{}
 	connClosed time.Time
 	wsURL      string
+	rc         *reconws.ReconWs
+	pauseReq   chan struct{} // the consumer of r.In stops consuming (synchronous hand-over)
+	resume     chan struct{}
+	busyStop   chan struct{} // non-nil while the busy sender runs
 }
 
 func (r *run) step(i int) Step {
@@ -300,7 +312,7 @@ func (r *run) wsHandler(w http.ResponseWriter, req *http.Request) {
 		case <-req.Context().Done():
 		case <-r.finished:
 		}
-	case "accept", "accepthang":
+	case "accept", "accepthang", "acceptdropw":
 		c, err := upgrader.Upgrade(w, req, nil)
 		if err != nil {
 			return
@@ -308,7 +320,68 @@ func (r *run) wsHandler(w http.ResponseWriter, req *http.Request) {
 		r.mu.Lock()
 		a.est = true
 		r.mu.Unlock()
-		r.serveConn(c, a, st)
+		if st.W == "acceptdropw" {
+			r.serveDropW(c, a)
+		} else {
+			r.serveConn(c, a, st)
+		}
+	}
+}
+
+// serveDropW: a connection that carries traffic and whose loss the client's WRITE loop notices first.
+// The user stops consuming r.In, one server message parks the client's read goroutine on r.In, the
+// user sends on r.Out all the time, the server reads a few of those messages and drops the connection
+// (abruptly, or with a close frame that nobody will read).
+func (r *run) serveDropW(c *websocket.Conn, a *attempt) {
+	defer c.Close()
+	select {
+	case r.pauseReq <- struct{}{}: // from here on nobody receives from r.In
+	case <-r.finished:
+		return
+	}
+	if err := c.WriteMessage(websocket.TextMessage, []byte(fmt.Sprintf("s:%d:0", a.idx))); err != nil {
+		return
+	}
+	time.Sleep(30 * time.Millisecond) // the read goroutine has taken it and sits in "r.In <- msg"
+	stop := make(chan struct{})
+	r.mu.Lock()
+	r.busyStop = stop
+	r.mu.Unlock()
+	go func() { // the busy sender
+		for n := 0; ; n++ {
+			select {
+			case r.rc.Out <- reconws.WsMessage{Type: websocket.TextMessage, Data: []byte(fmt.Sprintf("b:%d:%d", a.idx, n))}:
+			case <-stop:
+				return
+			case <-r.finished:
+				return
+			}
+			time.Sleep(300 * time.Microsecond)
+		}
+	}()
+	for got := 0; got < 5; {
+		_ = c.SetReadDeadline(time.Now().Add(3 * time.Second))
+		_, data, err := c.ReadMessage()
+		if err != nil {
+			return
+		}
+		parts := strings.Split(string(data), ":")
+		if len(parts) != 3 || parts[0] != "b" {
+			continue
+		}
+		n, _ := strconv.Atoi(parts[2])
+		r.mu.Lock()
+		a.ackSeq = append(a.ackSeq, n)
+		a.k = len(a.ackSeq)
+		r.mu.Unlock()
+		got++
+	}
+	if a.idx%2 == 0 {
+		if tc, ok := c.UnderlyingConn().(*net.TCPConn); ok {
+			_ = tc.SetLinger(0) // abrupt: RST
+		}
+	} else {
+		_ = c.WriteControl(websocket.CloseMessage, websocket.FormatCloseMessage(websocket.CloseGoingAway, ""), time.Now().Add(time.Second))
 	}
 }
 
@@ -451,7 +524,7 @@ func (c *Case) stopAllowance() time.Duration {
 }
 
 func runLoop(c *Case) {
-	r := &run{c: c, finished: make(chan struct{})}
+	r := &run{c: c, finished: make(chan struct{}), pauseReq: make(chan struct{}), resume: make(chan struct{}, 1)}
 	as, pa := serve(r.accessHandler, false)
 	ws, pw := serve(r.wsHandler, true)
 	ports.Store(pa, portInfo{r, 'a'})
@@ -468,6 +541,7 @@ func runLoop(c *Case) {
 	rc.Retry = reconws.RetryConfig{Factor: float64(c.Factor), Min: time.Duration(c.Min), Max: time.Duration(c.Max), Timeout: 200 * time.Millisecond}
 	ctx, cancel := context.WithCancel(context.Background())
 	r.cancel = cancel
+	r.rc = rc
 
 	// the user of the client: acknowledge every message that arrives on In, in order, on Out
 	acks := make(chan string, 4096)
@@ -485,6 +559,16 @@ func runLoop(c *Case) {
 					}
 					r.mu.Unlock()
 					acks <- fmt.Sprintf("c:%d:%d", ai, n)
+				}
+			case <-r.pauseReq: // stop consuming r.In until told to go on
+				select {
+				case <-r.resume: // a stale token from before the pause
+				default:
+				}
+				select {
+				case <-r.resume:
+				case <-r.finished:
+					return
 				}
 			case <-r.finished:
 				return
